@@ -12,7 +12,7 @@ func init() {
 func (i *IRCServer) cmdUser(s *Session, reply *Replyctx, msg *irc.Message) {
 	// We keep the username (so that bans are more effective) and realname
 	// (some people actually set it and look at it).
-	s.Username = msg.Params[0]
+	s.Username = truncateUsername(msg.Params[0])
 	s.Realname = msg.Trailing()
 	s.updateIrcPrefix()
 	i.maybeLogin(s, reply, msg)
